@@ -235,6 +235,7 @@ impl Prop for C13 {
             reopen: 0,
             rebuild: 0,
             extra: 0,
+            pressure: 0,
         };
         let cfg = EvCfg {
             authors: 2,
